@@ -541,6 +541,7 @@ func (a *NXActionResubmit) UnmarshalBinary(data []byte) error {
 		return errors.New("the []byte is too short to unmarshal a full NXActionConjunction message")
 	}
 	a.InPort = binary.BigEndian.Uint16(data[n:])
+	a.TableID = OFPTT_ALL
 
 	return err
 }
